@@ -369,12 +369,13 @@ func (fr *frame) applyContract(b *ssa.BasicBlock, st *state, ins ssa.Instruction
 	for _, cc := range all {
 		trPost := bindC(cc, st, pre, results)
 		trPost.depth = 0 // the callee's postcondition is used as stated; its spec terms are not unfolded here
-		if vc.w.db.RevealPost[vc.layer] {
-			trPost.depth = 1 // ... except in a layer that asks for it (`reveal LAYER`): facts about the components of a result
-		}
 		for _, cl := range cc.clausesFor(vc.layer) {
 			if cl.Kind != "ensures" {
 				continue
+			}
+			trPost.depth = 0
+			if vc.w.db.RevealPost[vc.layer] && cl.Layer == vc.layer {
+				trPost.depth = 1 // ... except the layer's own clauses in a layer that asks for it (`reveal LAYER`): facts about the components of a result
 			}
 			c.assume(implies(bc, vc.trClause(trPost, cl)))
 		}
